@@ -54,6 +54,7 @@ type ddfs struct {
 	stop    bool
 	onEnd   func(w *World) []*Violation
 	maxLen  int
+	digest  uint64
 }
 
 func replayChoices(sc *Scenario, mf MonitorFactory, path []Event) (*World, *StepRec) {
@@ -203,14 +204,21 @@ func (d *ddfs) run(w *World, path []Event, devs int) {
 				d.found(v, path)
 			}
 		}
-		if d.res.Terminal%25 == 1 {
+		if d.res.Terminal%25 == 1 || d.lim.Determinism {
 			// validate this execution against the implementation: re-run the whole
 			// choice list on fresh objects and compare the final state key
 			w2, _ := replayChoices(d.sc, d.mf, path)
 			d.res.Replays++
-			if w2.Key(true) != w.Key(true) {
-				d.res.HarnessErr = fmt.Sprintf("divergence: execution re-run from scratch ends in a different state: %v", path)
-				d.stop = true
+			if w2.Key(true) != w.Key(true) || (d.lim.Determinism && w2.Out != w.Out) {
+				if d.lim.Determinism {
+					d.found([]*Violation{{"C19", "same-inputs-same-outputs", fmt.Sprintf("re-executing the execution on fresh objects gave a different state or different outputs (outputs equal: %v)", w2.Out == w.Out)}}, path)
+				} else {
+					d.res.HarnessErr = fmt.Sprintf("divergence: execution re-run from scratch ends in a different state: %v", path)
+					d.stop = true
+				}
+			}
+			if d.lim.Determinism {
+				d.digest = d.digest*1099511628211 ^ w.Out
 			}
 		}
 		if len(d.res.Samples) < 2 && (d.res.Terminal == 1 || d.res.Terminal == 200) {
@@ -236,6 +244,9 @@ func DevDFS(sc *Scenario, mf MonitorFactory, lim Limits, onEnd func(w *World) []
 			break
 		}
 		completed = b
+		if lim.Determinism {
+			res.Digest = fmt.Sprintf("%s%016x", res.Digest, d.digest)
+		}
 		if unknownFound(res) > 0 {
 			break
 		}
